@@ -122,6 +122,12 @@ func (s *pd6) Plan(w *World) {
 		}
 		s.clients = append(s.clients, c)
 	}
+	// long DUIDs that differ only in their tail (vendor serial numbers)
+	if nc >= 3 && t.Draw(4) == 0 {
+		serial := []byte("vendor-serial-number-000000")
+		s.clients[1].DUID = &dhcpv6.DUIDEN{EnterpriseNumber: 4242, EnterpriseIdentifier: append(append([]byte(nil), serial...), 'A')}
+		s.clients[2].DUID = &dhcpv6.DUIDEN{EnterpriseNumber: 4242, EnterpriseIdentifier: append(append([]byte(nil), serial...), 'B')}
+	}
 	// equal-prefix DUIDs: one client's DUID is a proper prefix of another's
 	if nc >= 2 && t.Draw(4) == 0 {
 		s.clients[0].DUID = &dhcpv6.DUIDOpaque{Type: 77, Data: []byte{1, 2, 3}}
@@ -252,8 +258,21 @@ func (s *pd6) sendOne(w *World, c *Client6) {
 						l = 128
 					}
 				}
-				h.Prefix = &net.IPNet{IP: s.blockBase(b), Mask: net.CIDRMask(l, 128)}
-				kind = fmt.Sprintf("in-pool block %d /%d", b, l)
+				ip := s.blockBase(b)
+				if t.Draw(3) == 0 && l < 128 {
+					// host bits set beyond the hinted length: still names block b
+					low := make(net.IP, 16)
+					t.Bytes(low)
+					m := net.CIDRMask(l, 128)
+					for i := range ip {
+						ip[i] |= low[i] &^ m[i]
+					}
+				}
+				if t.Draw(6) == 0 && s.alloc-4 >= s.poolLen {
+					l = s.alloc - 4 // a hint shorter than the allocation size, inside the pool
+				}
+				h.Prefix = &net.IPNet{IP: ip, Mask: net.CIDRMask(l, 128)}
+				kind = fmt.Sprintf("in-pool block %d %s/%d", b, ip, l)
 				if s.held[k][pfxKey(h.Prefix.IP, l)] {
 					pr.exact = append(pr.exact, pfxKey(h.Prefix.IP, l))
 				}
